@@ -109,7 +109,7 @@ Proof. exact linearizable_hw. Qed.
 Theorem soh_hist_events_observable : forall t c g l g' l' es, tstep t c g l = Some (g', l', es) ->
   match hevs t l l' with
   | [] => log g' = log g
-  | [Lin.Inv _ _ u oa] => u = t /\ log g' = log g /\ In (E K_INVOKE 0 (opcode (fst oa))) es
+  | [Lin.Inv _ _ u oa] => u = t /\ log g' = log g /\ exists o0 r0, prog l = o0 :: r0 /\ In (E K_INVOKE 0 (opcode o0)) es
   | [Lin.Lin _ _ u; Lin.Res _ _ v r] =>
     u = t /\ v = t /\ In (E K_UNLOCK O_MTX 0) es /\
     match r with
